@@ -9,6 +9,7 @@
   directions (`Dir` is a parameter) and both entry points (a codec simply has no call dialect).
 -/
 import Mashu.Resolve
+import Mashu.Props.C10_Subst
 import Mashu.Generated
 namespace Mashu.Resolve
 
